@@ -3638,6 +3638,14 @@ fn f_tokens_case(m: &mut Model, rep: &mut Report, r: &mut Rng, words: &[String],
     if rep.samples.len() < 14 && words.len() > 6 && r.chance(1, 40) {
         rep.sample(json!({"stream": stream, "text": rd.text, "real": imp, "model": model}));
     }
+    // the renderer's claim: the text has exactly these tokens (checked on a sample, through the lexer model)
+    if r.chance(1, 12) {
+        let real = lex_case(m, rep, &rd.text, "lex.rendered");
+        let nt = real.split(' ').count();
+        if nt != words.len() + 1 {
+            rep.disagree("lex.rendered", json!({"text": rd.text, "tokens": line}), &format!("{nt} tokens"), &format!("{} words + eof", words.len()));
+        }
+    }
     (imp, simp)
 }
 
@@ -3985,6 +3993,189 @@ fn stream_full(m: &mut Model, rep: &mut Report, rng: &Rng, thorough: bool) {
     }
 }
 
+
+// ------------------------------------------------------------------ lexer (Lex.lean)
+
+/// the keys of `TokenKind::keyword_from_str` (token.rs), for the directed keyword stream
+const LEX_KEYWORDS: &[&str] = &["SELECT", "FROM", "WHERE", "AND", "OR", "NOT", "IN", "IS", "LIKE", "BETWEEN", "CASE", "WHEN", "THEN", "ELSE", "END", "AS", "ON", "JOIN", "LEFT", "RIGHT", "INNER", "OUTER", "FULL", "CROSS", "NATURAL", "USING", "GROUP", "BY", "HAVING", "ORDER", "ASC", "DESC", "NULLS", "FIRST", "LAST", "LIMIT", "OFFSET", "DISTINCT", "ALL", "UNION", "INTERSECT", "EXCEPT", "EXISTS", "CAST", "ANY", "INSERT", "INTO", "VALUES", "UPDATE", "SET", "DELETE", "CREATE", "TABLE", "INDEX", "DROP", "ALTER", "ADD", "COLUMN", "PRIMARY", "KEY", "FOREIGN", "REFERENCES", "UNIQUE", "CHECK", "DEFAULT", "CONSTRAINT", "CASCADE", "RESTRICT", "IF", "SHOW", "TABLES", "DESCRIBE", "EMBEDDINGS", "TRUE", "FALSE", "NULL", "INT", "INTEGER", "BIGINT", "SMALLINT", "FLOAT", "DOUBLE", "REAL", "DECIMAL", "NUMERIC", "VARCHAR", "CHAR", "TEXT", "BOOLEAN", "DATE", "TIME", "TIMESTAMP", "BLOB", "COUNT", "SUM", "AVG", "MIN", "MAX", "NODE", "EDGE", "NEIGHBORS", "PATH", "GET", "LIST", "STORE", "OUTGOING", "INCOMING", "BOTH", "SHORTEST", "PROPERTIES", "LABEL", "VERTEX", "VERTICES", "EDGES", "EMBED", "SIMILAR", "VECTOR", "EMBEDDING", "DIMENSION", "DISTANCE", "COSINE", "EUCLIDEAN", "DOT_PRODUCT", "DOTPRODUCT", "BUILD", "BATCH", "FIND", "WITH", "RETURN", "MATCH", "ENTITY", "CONNECTED", "ROWS", "VAULT", "GRANT", "REVOKE", "ROTATE", "CACHE", "INIT", "STATS", "CLEAR", "EVICT", "PUT", "SEMANTIC", "THRESHOLD", "CHECKPOINT", "CHECKPOINTS", "ROLLBACK", "CHAIN", "BEGIN", "COMMIT", "TRANSACTION", "HISTORY", "DRIFT", "CODEBOOK", "GLOBAL", "LOCAL", "ANALYZE", "HEIGHT", "TRANSITIONS", "TIP", "BLOCK", "CLUSTER", "CONNECT", "DISCONNECT", "STATUS", "NODES", "LEADER", "BLOBS", "INFO", "LINK", "UNLINK", "LINKS", "TAG", "UNTAG", "VERIFY", "GC", "REPAIR", "TO", "FOR", "META", "ARTIFACTS", "PAGERANK", "BETWEENNESS", "CLOSENESS", "EIGENVECTOR", "CENTRALITY", "LOUVAIN", "COMMUNITIES", "PROPAGATION", "DAMPING", "TOLERANCE", "ITERATIONS", "SAMPLING", "RESOLUTION", "PASSES", "WEIGHTED", "VARIABLE", "HOPS", "DEPTH", "SKIP", "TOTAL", "PATTERN", "AGGREGATE", "PROPERTY", "TYPE", "GRAPH"];
+
+/// one `char` with the three Unicode table answers the lexer asks for, in the driver's encoding
+fn lex_enc(text: &str) -> String {
+    let mut out = String::with_capacity(text.len() * 12);
+    for (i, c) in text.chars().enumerate() {
+        if i > 0 {
+            out.push(' ');
+        }
+        let up: Vec<String> = c.to_uppercase().map(|u| (u as u32).to_string()).collect();
+        out.push_str(&format!("{}.{}.{}.{}", c as u32, b01(c.is_whitespace()), b01(c.is_alphanumeric()), up.join("+")));
+    }
+    out
+}
+
+fn lex_canon(toks: &[np::Token]) -> String {
+    use np::TokenKind as TK;
+    toks.iter()
+        .map(|t| {
+            let k = match &t.kind {
+                TK::Eof => "eof".to_string(),
+                TK::Ident(_) => "ident".to_string(),
+                TK::Integer(v) => format!("int:{v}"),
+                TK::Float(_) => "float".to_string(),
+                TK::String(s) => format!("str:{}", s.chars().map(|c| (c as u32).to_string()).collect::<Vec<_>>().join(".")),
+                TK::Error(m) => format!(
+                    "err:{}",
+                    if m.starts_with("unterminated string") {
+                        "unterminated"
+                    } else if m.starts_with("invalid integer") {
+                        "integer"
+                    } else if m.starts_with("invalid float") {
+                        "float"
+                    } else if m.starts_with("unexpected character") {
+                        "char"
+                    } else {
+                        "other"
+                    }
+                ),
+                other => format!("name:{other:?}"),
+            };
+            format!("{k}@{}-{}", t.span.start.0, t.span.end.0)
+        })
+        .collect::<Vec<_>>()
+        .join(" ")
+}
+
+/// property oracles on the real token stream itself
+fn lex_oracles(rep: &mut Report, text: &str, toks: &[np::Token]) {
+    use np::TokenKind as TK;
+    let n = text.len();
+    let mut bad: Option<(&str, String)> = None;
+    let mut prev_end = 0usize;
+    for (i, t) in toks.iter().enumerate() {
+        let (lo, hi) = (t.span.start.0 as usize, t.span.end.0 as usize);
+        let last = i + 1 == toks.len();
+        if lo > hi || hi > n {
+            bad = Some(("span_outside_input", format!("token {i} {:?} has span {lo}..{hi} in an input of {n} bytes", t.kind)));
+        } else if !text.is_char_boundary(lo) || !text.is_char_boundary(hi) {
+            bad = Some(("span_not_on_char_boundary", format!("token {i} {:?} has span {lo}..{hi}", t.kind)));
+        } else if lo < prev_end {
+            bad = Some(("spans_overlap", format!("token {i} {:?} starts at {lo}, before the end {prev_end} of its predecessor", t.kind)));
+        } else if matches!(t.kind, TK::Eof) != last {
+            bad = Some(("eof_not_last", format!("token {i} of {} is {:?}", toks.len(), t.kind)));
+        } else if last && (lo != n || hi != n) {
+            bad = Some(("eof_not_at_end", format!("Eof has span {lo}..{hi} in an input of {n} bytes")));
+        } else if !last && lo == hi {
+            bad = Some(("empty_token", format!("token {i} {:?} is empty at {lo}", t.kind)));
+        } else {
+            match &t.kind {
+                TK::Ident(name) if *name != text[lo..hi] => {
+                    bad = Some(("ident_text", format!("identifier {name:?} is not the source text {:?} of its span", &text[lo..hi])));
+                }
+                TK::Float(v) if text[lo..hi].parse::<f64>().map(|w| w.to_bits()) != Ok(v.to_bits()) => {
+                    bad = Some(("float_value", format!("float {v} is not the value of the source text {:?}", &text[lo..hi])));
+                }
+                TK::Integer(v) if text[lo..hi].parse::<i64>() != Ok(*v) => {
+                    bad = Some(("integer_value", format!("integer {v} is not the value of the source text {:?}", &text[lo..hi])));
+                }
+                _ => {}
+            }
+        }
+        prev_end = hi;
+        if bad.is_some() {
+            break;
+        }
+    }
+    if toks.is_empty() {
+        bad = Some(("eof_not_last", "tokenize returned no token at all".into()));
+    }
+    if let Some((kind, what)) = bad {
+        viol_once(rep, &format!("neumann_parser::Lexer::next_token/{kind}"), &what, json!({"text": text}));
+    }
+}
+
+fn lex_case(m: &mut Model, rep: &mut Report, text: &str, stream: &str) -> String {
+    let t1 = text.to_string();
+    let real = match guarded(move || (np::tokenize(&t1), np::tokenize(&t1))) {
+        Ok((a, b)) => {
+            if a != b {
+                viol_once(rep, "neumann_parser::Lexer::tokenize/nondeterministic", "two runs of tokenize on the same text differ", json!({"text": text}));
+            }
+            lex_oracles(rep, text, &a);
+            for t in &a {
+                let tag = match &t.kind {
+                    np::TokenKind::Error(m) => format!("error.{}", m.split(':').next().unwrap_or("").replace(' ', "_")),
+                    np::TokenKind::Ident(_) => "ident".into(),
+                    np::TokenKind::Integer(_) => "integer".into(),
+                    np::TokenKind::Float(_) => "float".into(),
+                    np::TokenKind::String(_) => "string".into(),
+                    np::TokenKind::Eof => "eof".into(),
+                    k if k.is_keyword() => "keyword".into(),
+                    _ => "punctuation_or_unlisted_keyword".into(),
+                };
+                rep.hit(&format!("lex.kind.{tag}"));
+            }
+            lex_canon(&a)
+        }
+        Err(p) => {
+            viol_once(rep, "neumann_parser::Lexer::tokenize/panic", &format!("tokenize panicked: {p}"), json!({"text": text}));
+            format!("panic {p}")
+        }
+    };
+    let model = m.ask(&format!("lex {}", lex_enc(text)));
+    rep.case(stream, if text.len() >= 3 { Some(text) } else { None });
+    rep.compare(stream, || json!({"text": text}), &real, &model);
+    real
+}
+
+const LEX_DIRECTED: &[&str] = &[
+    "", " ", "\n", "\t \r\n", "--", "-- c", "-- c\n", "-- c\nx", "- -", "-", "->", "-->", "--->", "a--b\nc", "a - - b",
+    "/", "/*", "/* c", "/* c */", "/* a /* b */ c */ x", "/* a /* b */ x", "/*/", "/**/", "/***/", "/*/**/*/1", "*/", "/ *", "a/*b*/c",
+    "1", "007", "1.5", "1.", "1.x", ".5", "1..2", "1.5.3", "1e5", "1E+5", "1e-5", "1e", "1e+", "1e-x", "1.5e", "1e5e5", "1.e5", "1x", "1_000",
+    "9223372036854775807", "9223372036854775808", "99999999999999999999999999", "0.00000000000000000000001", "1e999", "1e-999",
+    "''", "'a'", "'it''s'", "''''", "'''", "'a", "'a\nb'", "'a\\nb'", "'a\\", "'a\\'b'", "'a\\\nb'", "'\\x'", "'\\0\\t\\r\\\\\\\"'", "\"\"", "\"a\"\"b\"",
+    "\"a'b\"", "'a\"b'", "'é'", "'\u{1F600}'", "\"unterminated",
+    "a", "_", "_a1", "a1b2", "A_b", "é", "aé", "a\u{0663}", "\u{0663}", "a\u{FF11}", "x\u{00B2}", "select", "SELECT", "SeLeCt", "selects", "select1", "_select",
+    "de\u{017F}c", "l\u{0131}m\u{0131}t", "pa\u{00DF}es", "\u{017F}elect", "i\u{017F}", "dot_product", "DOTPRODUCT", "dot_Product",
+    "+-*/%", "= => ==", "! != !!", "< <= <> << <<<", "> >= >> >>>", "& && &&&", "| || |||", "^~()[]{},.;", ": :: :::", "?@#$", "`", "\\", "\u{00A0}x\u{2028}y\u{3000}",
+    "a\u{00A0}b", "a\u{0085}b", "\u{FEFF}a", "\u{200B}a", "1\u{00A0}2",
+    "SELECT * FROM t WHERE a<=1.5e3--x\nAND b<>'y'/*z*/;",
+];
+
+const LEX_ALPHABET: &[&str] = &[
+    " ", " ", " ", "\n", "\t", "a", "b", "e", "E", "x", "_", "S", "i", "0", "1", "9", ".", ".", "e", "+", "-", "-", "*", "/", "/", "*",
+    "'", "'", "\"", "\\", "\\", "n", "=", "<", ">", "!", "&", "|", ":", "(", ")", "[", "]", "{", "}", ",", ";", "?", "@", "#", "$", "^", "~", "%", "`",
+    "é", "ß", "\u{017F}", "\u{0131}", "\u{00A0}", "\u{2028}", "\u{3000}", "\u{0085}", "\u{0663}", "\u{FF11}", "\u{4E2D}", "\u{1F600}", "\u{0301}", "\u{200B}",
+    "select", "IS", "null", "12", "3.5", "1e", "--", "/*", "*/", "''", "ab",
+];
+
+fn stream_lex(m: &mut Model, rep: &mut Report, rng: &Rng, thorough: bool) {
+    for t in LEX_DIRECTED {
+        lex_case(m, rep, t, "lex.directed");
+    }
+    // every keyword of the table: three spellings are the keyword, a longer word is an identifier
+    let mut r = rng.fork("lex.keywords");
+    for k in LEX_KEYWORDS {
+        let lower = k.to_lowercase();
+        let mixed: String = k.chars().map(|c| if r.chance(1, 2) { c.to_ascii_lowercase() } else { c }).collect();
+        let text = format!("{k} {lower} {mixed} {k}_ x{lower} {lower}1");
+        let real = lex_case(m, rep, &text, "lex.keywords");
+        let names: Vec<&str> = real.split(' ').map(|t| t.split('@').next().unwrap_or("")).collect();
+        if names.len() != 7 || names[0] != names[1] || names[0] != names[2] || !names[0].starts_with("name:") || names[3..6] != ["ident", "ident", "ident"] {
+            viol_once(rep, "neumann_parser::TokenKind::keyword_from_str/case_insensitive_whole_word",
+                &format!("`{text}` lexes as {real}: a keyword is recognised case-insensitively and only as a whole word"), json!({"text": text}));
+        }
+    }
+    let mut r = rng.fork("lex.random");
+    let n = if thorough { 40000 } else { 4000 };
+    for _ in 0..n {
+        let len = r.below(24) as usize;
+        let mut text = String::new();
+        for _ in 0..len {
+            text.push_str(*r.pick(LEX_ALPHABET));
+        }
+        lex_case(m, rep, &text, "lex.random");
+    }
+}
+
 // ------------------------------------------------------------------ main
 
 fn main() {
@@ -4062,6 +4253,7 @@ fn main() {
     stream_boundary(&mut m, &mut rep, &rng);
     stream_select(&mut m, &mut rep, &rng, args.thorough);
     stream_nest(&mut m, &mut rep, &rng, args.thorough);
+    stream_lex(&mut m, &mut rep, &rng, args.thorough);
     f_chains(&mut m, &mut rep, &rng, args.thorough);
     stream_full(&mut m, &mut rep, &rng, args.thorough);
     stream_adversarial(&mut rep, &rng, args.thorough);
